@@ -25,7 +25,10 @@ def sh(cmd, cwd=None, env=None, timeout=3600):
     e = dict(os.environ)
     if env:
         e.update(env)
-    p = subprocess.run(cmd, shell=True, cwd=cwd, env=e, stdout=subprocess.PIPE, stderr=subprocess.STDOUT, text=True, timeout=timeout)
+    try:
+        p = subprocess.run(cmd, shell=True, cwd=cwd, env=e, stdout=subprocess.PIPE, stderr=subprocess.STDOUT, text=True, timeout=timeout)
+    except subprocess.TimeoutExpired as ex:
+        return 124, (ex.stdout or "") if isinstance(ex.stdout, str) else ""
     return p.returncode, p.stdout
 
 
@@ -80,7 +83,7 @@ def main():
                 print("demo without change:", meta["demo_without_change"])
         for c in checks:
             t0 = time.time()
-            rc, out = sh(f"./check {c} --tier {a.tier}", cwd=VERIF, env=dict(VERIF_REPO=mut))
+            rc, out = sh(f"./check {c} --tier {a.tier}", cwd=VERIF, env=dict(VERIF_REPO=mut), timeout=1500)
             viol = [l for l in out.splitlines() if l.startswith("VIOLATION")]
             sigs = [l.strip() for l in out.splitlines() if l.strip().startswith("signature:")]
             meta["checks"][c] = dict(exit=rc, violations=len(viol), signatures=sigs[:8], wall_s=round(time.time() - t0, 1), tier=a.tier)
